@@ -69,6 +69,22 @@ type probeNested struct {
 	Extra string
 }
 
+// ... two and three levels down (a wrapper around a wrapper of a library type)
+type ProbeMid struct {
+	ProbeHeader
+	Mid string
+}
+
+type probeDeep struct {
+	ProbeMid
+	Top string
+}
+
+type probeDeeper struct {
+	probeDeep
+	Roof string
+}
+
 // ... and embedded under an unexported alias name
 type paragraphAlias = control.Paragraph
 
@@ -372,12 +388,37 @@ var specC09Scalars = Register(&Spec[ScalarsCase]{
 		if np, perr := paraOfText(ntext); err != nil || perr != nil || np.Values["X-Unknown"] != "kept" || np.Values["Vcs-Git"] != "https://example.org/x.git" || np.Values["Extra"] != "changed" || np.Values["Source"] != "s"+c.Req {
 			return errf("a struct embedding a struct that embeds Paragraph read %q and marshals as %q (err %v): unknown fields must be re-emitted", ndoc, ntext, err)
 		}
+		ddoc := "Source: " + "s" + c.Req + "\nX-Unknown: k" + c.Req + "\nMid: m\nTop: t\nRoof: r\nVcs-Git: https://example.org/x.git\n"
+		var deep probeDeep
+		if err := control.Unmarshal(&deep, strings.NewReader(ddoc)); err != nil {
+			return errf("Unmarshal(%q) into a struct reaching Paragraph through three embedded structs: %v", ddoc, err)
+		}
+		deep.Top = "changed"
+		dtext, err := marshalToText(&deep)
+		if dp, perr := paraOfText(dtext); err != nil || perr != nil || dp.Values["X-Unknown"] != "k"+c.Req || dp.Values["Vcs-Git"] != "https://example.org/x.git" || dp.Values["Roof"] != "r" || dp.Values["Top"] != "changed" || dp.Values["Mid"] != "m" || dp.Values["Source"] != "s"+c.Req {
+			return errf("a struct reaching Paragraph through three embedded structs read %q and marshals as %q (err %v): unknown fields must be re-emitted, members written", ddoc, dtext, err)
+		}
+		var deeper probeDeeper
+		if err := control.Unmarshal(&deeper, strings.NewReader(ddoc)); err != nil {
+			return errf("Unmarshal(%q) into a struct reaching Paragraph through four embedded structs: %v", ddoc, err)
+		}
+		dtext, err = marshalToText(&deeper)
+		if dp, perr := paraOfText(dtext); err != nil || perr != nil || dp.Values["X-Unknown"] != "k"+c.Req || dp.Values["Vcs-Git"] != "https://example.org/x.git" || dp.Values["Roof"] != "r" || dp.Values["Top"] != "t" || dp.Values["Source"] != "s"+c.Req {
+			return errf("a struct reaching Paragraph through four embedded structs read %q and marshals as %q (err %v): unknown fields must be re-emitted, members written", ddoc, dtext, err)
+		}
 		var aliased probeAliased
 		if err := control.Unmarshal(&aliased, strings.NewReader("A: 1\nX-Other: 2\n")); err == nil {
 			if atext, err := marshalToText(&aliased); err == nil {
 				if ap, perr := paraOfText(atext); perr != nil || ap.Values["A"] != "1" {
 					return errf("struct embedding Paragraph under an alias name marshals as %q", atext)
 				}
+			}
+		}
+		// the aliased Paragraph filled by its owner: what goes out is what was put in
+		byHand := probeAliased{paragraphAlias: control.Paragraph{Order: []string{"X-Other", "X-More"}, Values: map[string]string{"X-Other": "o" + c.Req, "X-More": "m"}}, A: "1"}
+		if atext, err := marshalToText(&byHand); err == nil {
+			if ap, perr := paraOfText(atext); perr != nil || ap.Values["A"] != "1" || (len(ap.Order) > 1 && (ap.Values["X-Other"] != "o"+c.Req || ap.Values["X-More"] != "m")) {
+				return errf("struct embedding a hand-filled Paragraph (X-Other=%q, X-More=m) under an alias name marshals as %q", "o"+c.Req, atext)
 			}
 		}
 		// folded lists and scalars without a strip tag
